@@ -30,7 +30,7 @@ BOUNDS = {
                   rhs_shapes=["(n,)", "(n,1)", "(n,2)"], trans=["N", "T", "H"], data=["real", "complex", "real matrix / complex rhs"]),
     "thorough": dict(diagonal_n=[2, 3, 4], lu_n=[2, 3, 4], lu_perms="all (n<=3), 5 of 24 (n=4)", cholesky_n=[2, 3, 4], ldl_n=[2, 3, 4],
                      ldl_perms="all (n<=3), 3 of 24 (n=4)", ldl_block="n=2, n=3 (1+2, 2+1), n=4 (2+2)", qr_n=[2], sparse_lu_n=[2, 3, 4],
-                     precond_n=[2, 3, 4], auto_n=[2, 3], auto_overrides=["none", "all", "herm", "sym"], cg_n=2, cg="as quick + maxit 2 complex, recursive branch with identity/Jacobi, block of 2 right-hand sides",
+                     precond_n=[2, 3, 4], auto_n=[2, 3], auto_overrides=["none", "all", "herm", "sym"], cg_n=2, cg="as quick + maxit 2 complex (explicit restart), recursive branch with identity/Jacobi (real)",
                      orth="2 real vectors of length 3 (QR pre-image: every real 3 x 2 matrix, exactly / nearly dependent second column included)", multigrid=["2x2", "4x2", "2x2x2", "4x4", "2x2x4"],
                      multigrid_ndof=[1, 2, 3], rhs_shapes=["(n,)", "(n,1)", "(n,2)"], trans=["N", "T", "H"],
                      data=["real", "complex", "real matrix / complex rhs"]),
@@ -40,6 +40,10 @@ OUTSIDE = ["that CG / multigrid converge (iteration counts, conditioning); only 
            "dtype / precision of the returned arrays (only the real/complex content is tracked)",
            "Pardiso / CHOLMOD (scikit-sparse) / cvxopt wrappers (libraries absent in this environment)",
            "SolverDenseQR beyond n = 2 and for non-square matrices",
+           "CG with a symbolic block of several right-hand sides (2x2 p^H A p, two-column orth: not finished in 400 s); blocks of "
+           "two right-hand sides (independent, dependent, zero or already solved columns) are exercised by the concrete `cgdeg` "
+           "regression items only", "CG's recursive residual update (restart > 1) on complex data (the cross-multiplied identities "
+           "are not normalised in the budget; real data is decided, complex data takes the explicit-restart branch)",
            "ILU (inexact by design; spilu is not modelled)", "orth() on complex vectors and on 3 or more vectors (3 vectors: two "
            "span obligations stayed undecided after 460 s; inside CG it is executed for single columns)", "GeometricMultigrid.solve (a V-cycle is an approximation by design)",
            "inputs on which the code divides by zero (zero pivots, zero diagonal entries, zero right-hand-side or residual "
@@ -994,8 +998,8 @@ DEG_MATS = {"r1": [[2.0, 0.5], [0.5, 3.0]], "r2": [[1.0, -2.0], [-2.0, 5.0]], "c
 
 
 def sc_cg_degenerate(V, P, cfg):
-    """Regression items for the repaired defect D(CG-NaN): right-hand sides with a zero column / a column the initial guess
-    already solves.  Concrete dyadic numbers only (the defect lives exactly where the symbolic run excludes paths: 0/0);
+    """Regression items for the repaired CG-NaN defect (right-hand sides with a zero column / a column the initial guess
+    already solves) and for blocks of two right-hand sides (independent, linearly dependent).  Concrete dyadic numbers only (the defect lives exactly where the symbolic run excludes paths: 0/0);
     the clause is evaluated on the real library: no NaN, every column solved, no max-iteration warning."""
     from pymoto.solvers import CG
     import scipy.sparse as sps
@@ -1009,6 +1013,10 @@ def sc_cg_degenerate(V, P, cfg):
         b = np.stack([b1, 0 * b1], axis=1)
     elif case == "zero-first-column":
         b = np.stack([0 * b1, b1], axis=1)
+    elif case == "two-columns":
+        b = np.stack([b1, np.array([2.0, -1.0], dtype=A.dtype)], axis=1)
+    elif case == "dependent-columns":
+        b = np.stack([b1, 2 * b1], axis=1)
     else:   # solved-column: x0[:, 1] solves the second column exactly
         xs = np.array([0.75, 0.875], dtype=A.dtype)
         b = np.stack([b1, A @ xs], axis=1)
@@ -1382,15 +1390,13 @@ def items(tier):
         if not q:
             cg(t, "identity", False, 50, 2, "r", False, False)
             cg(t, "identity", False, 1, 2, "c", True, True)
-            cg(t, "free", False, 50, 2, "c", True, True)
-    for case in ("zero-rhs", "zero-column", "zero-first-column", "solved-column"):
+    for case in ("zero-rhs", "zero-column", "zero-first-column", "solved-column", "two-columns", "dependent-columns"):
         for mat in ("r1", "r2", "c1"):
             for t in (("N",) if mat != "c1" else TRANS):
                 add("cgdeg", "%s-%s-%s" % (case, mat, t), case=case, mat=mat, trans=t)
     cg("N", "identity", True, 1, 1, "r", False, False, shape="c1")
     cg("H", "jacobi", False, 1, 1, "c", True, True, shape="c1", sparse=False)
     if not q:
-        cg("N", "identity", True, 1, 1, "r", False, False, shape="c2")
         cg("N", "jacobi", False, 50, 2, "r", False, False)
         add("orth", "k2-r", k=2)
         add("orth", "k2-r-flip", k=2, flip=True)
